@@ -59,6 +59,16 @@ def scale_value(v, spec, axis, c):
     return float(v) * c ** d + sh * math.log(c)
 
 
+def compare(out0, out1, spec, axis, c, rtol):
+    """out1 == c^dim out0, componentwise along the result spec; 'taint' components are not compared"""
+    if spec == "taint":
+        return True
+    if isinstance(spec, (list, tuple)) and spec[0] == "tuple":
+        return isinstance(out0, tuple) and isinstance(out1, tuple) and len(out0) == len(out1) == len(spec) - 1 and \
+            all(compare(x, y, sp, axis, c, rtol) for x, y, sp in zip(out0, out1, spec[1:]))
+    return close(scale_value(out0, spec, axis, c), out1, rtol)
+
+
 def close(a, b, rtol):
     if isinstance(a, tuple) or isinstance(b, tuple):
         return isinstance(a, tuple) and isinstance(b, tuple) and len(a) == len(b) and \
@@ -75,6 +85,14 @@ def close(a, b, rtol):
         atol = 1e-9 * (fin.max() if fin.size else 0.0)
         return bool(np.all((np.isnan(a) & np.isnan(b)) | (a == b) |
                            (np.abs(a - b) <= rtol * np.maximum(np.abs(a), np.abs(b)) + atol)))
+
+
+def _all_nan(out):
+    try:
+        flat = np.concatenate([np.ravel(np.asarray(x, dtype=float)) for x in (out if isinstance(out, tuple) else (out,))])
+        return flat.size > 0 and bool(np.all(np.isnan(flat)))
+    except Exception:
+        return False
 
 
 def call(fn, params, args):
@@ -172,6 +190,37 @@ def dim_piecewise_posterior(rng, hint):
             "max_shape": float(rng.choice([1000.0, 20.0]))}
 
 
+def dim_count_mutations(rng, hint):
+    import msprime
+    seed = int(rng.integers(1, 2**31 - 1))
+    L = float(rng.choice([1e3, 1e4, 123456.0]))
+    ts = msprime.sim_ancestry(int(rng.integers(2, 6)), sequence_length=L, recombination_rate=float(rng.choice([0, 2e-4, 1e-3])) * 1e3 / L,
+                              population_size=100, random_seed=seed, discrete_genome=False)
+    ts = msprime.sim_mutations(ts, rate=float(rng.choice([1e-5, 5e-5])) * 1e3 / L, random_seed=seed, discrete_genome=False)
+    is_sample = np.zeros(ts.num_nodes, dtype=bool)
+    is_sample[list(ts.samples())] = True
+    return {"node_is_sample": is_sample.tolist(), "mutations_node": ts.mutations_node.tolist(),
+            "mutations_position": ts.sites_position[ts.mutations_site].tolist(),
+            "edges_parent": ts.edges_parent.tolist(), "edges_child": ts.edges_child.tolist(),
+            "edges_left": ts.edges_left.tolist(), "edges_right": ts.edges_right.tolist(),
+            "indexes_insert": ts.indexes_edge_insertion_order.tolist(),
+            "indexes_remove": ts.indexes_edge_removal_order.tolist(), "sequence_length": float(ts.sequence_length),
+            "size_biased": bool(rng.random() < 0.5)}
+
+
+def dim_approx(rng, hint):
+    """arguments for every EP update of approx.py, keyed by the parameter naming convention of that file"""
+    r = _mag(rng, -3, 3)
+    a_i, a_j = float(10.0 ** rng.uniform(0.0, 2.0)), float(10.0 ** rng.uniform(0.0, 2.0))
+    b_i, b_j = r * float(rng.uniform(0.2, 5)), r * float(rng.uniform(0.2, 5))
+    y = float(rng.integers(0, 6))
+    mu = r * float(10.0 ** rng.uniform(-2, 0.7))
+    t_j = 0.0 if rng.random() < 0.25 else float(rng.uniform(0.01, 0.9)) / r
+    t_i = float(rng.uniform(1.0, 3.0)) / r
+    return {"a_i": a_i, "a_j": a_j, "b_i": b_i, "b_j": b_j, "y_ij": y, "mu_ij": mu, "t_i": t_i, "t_j": t_j,
+            "pars_i": [a_i - 1.0, b_i], "pars_j": [a_j - 1.0, b_j], "pars_ij": [y, mu]}
+
+
 GENS = dict(gens.GENS)
 GENS.update({k: v for k, v in list(globals().items()) if k.startswith("dim_") and callable(v)})
 
@@ -209,7 +258,7 @@ def one(req):
         args = {p: replay.to_value(raw.get(p), k, nd) for p, (k, nd) in zip(params, types)}
         st0, out0 = call(fn, params, args)
         ncases += 1
-        if st0 == "ok":
+        if st0 == "ok" and not _all_nan(out0):
             exercised += 1
         for axis in req.get("axes", ["T"]):
             for c in req["scales"]:
@@ -219,9 +268,7 @@ def one(req):
                         sargs[p] = args[p].copy()
                 st1, out1 = call(fn, params, sargs)
                 ok = st0 == st1 and (out0 == out1 if st0 == "raise" else
-                                     close(scale_value(out0, req["returns"], axis, c)
-                                           if not isinstance(out0, tuple) else
-                                           scale_value(out0, req["returns"], axis, c), out1, rtol))
+                                     compare(out0, out1, req["returns"], axis, c, rtol))
                 if not ok and len(failures) < 5:
                     failures.append({"args": {k: replay.jsonable(v) for k, v in args.items()}, "axis": axis,
                                      "scale": c, "unscaled": [st0, replay.jsonable(out0)],
